@@ -1,6 +1,6 @@
 (* Proofs/ShowBiasFacts.v — lemmas about Model/ShowBias.v (property C18). *)
 From Coq Require Import String Ascii.
-From SA Require Import Model.ShowBias Proofs.CmFacts Proofs.GroupFacts.
+From SA Require Import Model.ShowBias Proofs.CmFacts Proofs.GroupFacts Proofs.QuantileFacts Proofs.BootCIFacts Proofs.BootMetricFacts.
 Open Scope Q_scope.
 
 (* ---------- group keys: sorted(set(.)) keeps exactly the distinct keys ---------- *)
@@ -437,3 +437,282 @@ Proof.
   - intros Hpos v Hv. rewrite norm1_nonzero by exact Hd. eexists. split; [reflexivity|].
     apply Qle_shift_div_l; [exact Hpos|]. specialize (Hall v Hv). lra.
 Qed.
+
+(* ---------- the interval arrays ---------- *)
+Lemma every_other_nth {A} (l : list A) c d : nth c (every_other l) d = nth (c * 2) l d.
+Proof.
+  revert l. induction c as [|c IH]; intros [|x [|y r]]; simpl; try reflexivity.
+  - now destruct c.
+  - apply IH.
+Qed.
+Lemma ci_lower_nth data c : nth c (ci_lower data) None = nth (c * 2 + 0) data None.
+Proof. unfold ci_lower. now rewrite every_other_nth, Nat.add_0_r. Qed.
+Lemma ci_upper_nth data c : nth c (ci_upper data) None = nth (c * 2 + 1) data None.
+Proof.
+  unfold ci_upper. rewrite every_other_nth. destruct data as [|x r]; [now destruct (c * 2)%nat|].
+  cbn [tl]. now rewrite Nat.add_1_r.
+Qed.
+Lemma nth_firstn_lt {A} (l : list A) k j d : (j < k)%nat -> nth j (firstn k l) d = nth j l d.
+Proof.
+  revert l j. induction k as [|k IH]; intros l j H; [lia|]. destruct l as [|x r]; [now destruct j|].
+  destruct j as [|j]; [reflexivity|]. simpl. apply IH. lia.
+Qed.
+Lemma nth_skipn_add {A} (l : list A) k j d : nth j (skipn k l) d = nth (k + j) l d.
+Proof.
+  revert l. induction k as [|k IH]; intros l; [reflexivity|]. destruct l as [|x r]; [now destruct j|].
+  simpl. apply IH.
+Qed.
+Lemma chunks_nth {A} (n k : nat) (l : list A) i j d :
+  (i < n)%nat -> (j < k)%nat -> nth j (nth i (chunks n k l) []) d = nth (i * k + j) l d.
+Proof.
+  revert l i. induction n as [|n IH]; intros l i Hi Hj; [lia|]. cbn [chunks]. destruct i as [|i]; cbn [nth].
+  - now rewrite nth_firstn_lt.
+  - rewrite IH by lia. rewrite nth_skipn_add. f_equal. lia.
+Qed.
+
+Section CIRoutine.
+  Variables Phi PhiInv pow15 : Q -> Q.
+
+  (* the CI routine, component by component (C13): entry c of the result is the one-component interval of replicate
+     column c with estimate c *)
+  Lemma std_ci_components yshape rows hat alpha m sh data :
+    0 < alpha -> alpha < 1 -> length hat = prod_shape yshape ->
+    std_ci Phi PhiInv pow15 yshape rows (Some hat) alpha m = Ok (sh, data) ->
+    sh = yshape ++ [2%nat] /\
+    forall c, (c < prod_shape yshape)%nat ->
+      ci_col Phi PhiInv pow15 m (column rows c) (nth c hat None) alpha
+      = Ok (nth (c * 2 + 0) data None, nth (c * 2 + 1) data None).
+  Proof.
+    intros A0 A1 L H. unfold std_ci, bootstrap_ci in H. destruct m.
+    - rewrite bootstrap_ci_quantile_ok in H by (constructor; [lra|constructor]).
+      injection H as <- <-. split; [reflexivity|]. intros c Hc. rewrite quantile_formula by assumption.
+      destruct (quantile_pairs_nth (columns rows (prod_shape yshape)) [alpha] c 0) as [E0 E1];
+        [now rewrite columns_length|simpl; lia|].
+      cbn [length nth] in E0, E1. rewrite columns_nth in E0, E1 by exact Hc.
+      replace (c * (1 * 2) + (0 * 2 + 0))%nat with (c * 2 + 0)%nat in E0 by lia.
+      replace (c * (1 * 2) + (0 * 2 + 1))%nat with (c * 2 + 1)%nat in E1 by lia.
+      now rewrite E0, E1.
+    - assert (Hm : MBc <> MQuantile) by discriminate.
+      destruct (bootstrap_ci_bcx_ok Phi PhiInv pow15 _ _ _ _ _ _ _ Hm H) as (-> & _). split; [reflexivity|].
+      intros c Hc. exact (proj1 (bootstrap_ci_bcx_component Phi PhiInv pow15 _ _ _ _ _ _ _ c Hm L Hc H)).
+    - assert (Hm : MBca <> MQuantile) by discriminate.
+      destruct (bootstrap_ci_bcx_ok Phi PhiInv pow15 _ _ _ _ _ _ _ Hm H) as (-> & _). split; [reflexivity|].
+      intros c Hc. exact (proj1 (bootstrap_ci_bcx_component Phi PhiInv pow15 _ _ _ _ _ _ _ c Hm L Hc H)).
+  Qed.
+
+  Hypothesis Phi_range : forall x, 0 <= Phi x /\ Phi x <= 1.
+  Hypothesis Phi_mono : forall x y, x <= y -> Phi x <= Phi y.
+  Hypothesis PhiInv_mono : forall p p', 0 < p -> p <= p' -> p' < 1 -> PhiInv p <= PhiInv p'.
+
+  Lemma std_ci_ordered yshape rows hat alpha m sh data :
+    0 < alpha -> alpha < 1 -> length hat = prod_shape yshape ->
+    std_ci Phi PhiInv pow15 yshape rows (Some hat) alpha m = Ok (sh, data) ->
+    forall c, (c < prod_shape yshape)%nat ->
+      side_cond PhiInv pow15 m (column rows c) (nth c hat None) alpha ->
+      rle (nth (c * 2 + 0) data None) (nth (c * 2 + 1) data None).
+  Proof.
+    intros A0 A1 L H c Hc Sd. destruct (std_ci_components _ _ _ _ _ _ _ A0 A1 L H) as (_ & Hcomp).
+    exact (ci_col_ordered Phi PhiInv pow15 Phi_range Phi_mono PhiInv_mono _ _ _ _ _ _ A0 A1 Sd (Hcomp c Hc)).
+  Qed.
+End CIRoutine.
+
+Section FramesCI.
+Variable argsort : list Q -> list nat.
+Hypothesis argsort_perm : forall l, Permutation (argsort l) (seq 0 (length l)).
+Hypothesis argsort_sorted : forall l, sorted (take_nat 0%Q l (argsort l)).
+Variables Phi PhiInv pow15 : Q -> Q.
+Notation sb_object := (sb_object argsort).
+Notation sb_labels := (sb_labels argsort).
+
+Lemma raw_table_concat_length rows m pl sc ec ts idx :
+  length (concat (raw_table rows m pl sc ec ts idx)) = (length idx * length ts)%nat.
+Proof.
+  unfold raw_table. induction idx as [|k r IH]; [reflexivity|]. cbn [map concat length].
+  rewrite app_length, map_length, IH. lia.
+Qed.
+Lemma sb_labels_length rows gc pl sc ec : length (sb_labels rows gc pl sc ec) = length (groups (sb_object rows gc pl sc ec)).
+Proof. unfold sb_labels, ShowBiasFacts.sb_labels. now rewrite map_length. Qed.
+
+(* what the intervals are: the CI routine on the replicate array the code builds, with the UN-normalised group metric
+   as point estimate; lower / upper are its two halves, laid out like the values *)
+Theorem showbias_ci_spec rows gc m nz cfg hist alpha pl sc ec thr bf :
+  rows_wf gc rows ->
+  showbias_std argsort Phi PhiInv pow15 rows gc m nz true cfg hist alpha pl sc ec thr = Ok bf ->
+  let o := sb_object rows gc pl sc ec in
+  let ts := map Fin (threshold_array thr) in
+  let G := length (sb_labels rows gc pl sc ec) in
+  let T := length ts in
+  let hat := concat (raw_table rows m pl sc ec ts (sb_labels rows gc pl sc ec)) in
+  exists samples0 samples data lo hi,
+    sb_bootstrap_metric o (fun s k => concat (calculate_group_metric m s k)) cfg hist ts = Ok samples0 /\
+    match nz with
+    | None => samples = samples0
+    | Some z => apply_normalization z (overall_row rows m pl sc ec ts) G samples0 = Ok samples
+    end /\
+    std_ci Phi PhiInv pow15 [G; T] samples (Some hat) alpha (bootstrap_method cfg) = Ok ([G; T; 2%nat], data) /\
+    length hat = prod_shape [G; T] /\
+    b_lower bf = Some lo /\ b_upper bf = Some hi /\
+    f_data lo = chunks G T (ci_lower data) /\ f_data hi = chunks G T (ci_upper data) /\
+    (0 < alpha -> alpha < 1 -> forall i j, (i < G)%nat -> (j < T)%nat ->
+       ci_col Phi PhiInv pow15 (bootstrap_method cfg) (column samples (i * T + j)) (nth (i * T + j) hat None) alpha
+       = Ok (nth j (nth i (f_data lo) []) None, nth j (nth i (f_data hi) []) None)).
+Proof.
+  intros W. unfold showbias_std. rewrite showbias_unfold. cbv zeta. rewrite (group_index_ok argsort argsort_perm argsort_sorted _ _ _ _ _ W). cbn [res_bind].
+  rewrite (raw_table_eq argsort argsort_perm argsort_sorted), (overall_metric_rows argsort argsort_perm argsort_sorted).
+  fold (overall_row rows m pl sc ec (map Fin (threshold_array thr))). rewrite <- sb_labels_length.
+  destruct (match nz with None => Ok _ | Some z => apply_normalization z _ 1 _ end) as [d|]; [|discriminate]. cbn [res_bind].
+  destruct (sb_bootstrap_metric _ _ _ _ _) as [s0|] eqn:Es0; [|discriminate]. cbn [res_bind].
+  destruct (match nz with None => Ok s0 | Some z => _ end) as [s|] eqn:Es; [|discriminate]. cbn [res_bind].
+  destruct (std_ci _ _ _ _ _ _ _ _) as [[sh data]|] eqn:Eci; [|discriminate]. cbn [res_bind snd].
+  intro H. injection H as <-. cbn [b_lower b_upper f_data].
+  set (G := length (sb_labels rows gc pl sc ec)) in *. set (T := length (map Fin (threshold_array thr))) in *.
+  assert (L : length (concat (raw_table rows m pl sc ec (map Fin (threshold_array thr)) (sb_labels rows gc pl sc ec))) = prod_shape [G; T]).
+  { rewrite raw_table_concat_length. unfold prod_shape. simpl. fold G T. lia. }
+  exists s0, s, data. eexists. eexists.
+  split; [reflexivity|]. split; [destruct nz; [exact Es|now injection Es]|].
+  assert (Hsh : sh = [G; T; 2%nat]).
+  { (* the shape is yshape ++ [2] whatever alpha is *)
+    pose proof Eci as E. unfold std_ci, bootstrap_ci in E. destruct (bootstrap_method cfg).
+    - unfold bootstrap_ci_quantile in E. destruct (forallb _ _); [|discriminate]. now injection E as <- _.
+    - assert (Hm : MBc <> MQuantile) by discriminate.
+      now destruct (bootstrap_ci_bcx_ok Phi PhiInv pow15 _ _ _ _ _ _ _ Hm E) as (-> & _).
+    - assert (Hm : MBca <> MQuantile) by discriminate.
+      now destruct (bootstrap_ci_bcx_ok Phi PhiInv pow15 _ _ _ _ _ _ _ Hm E) as (-> & _). }
+  subst sh. split; [exact Eci|].
+  split; [exact L|]. split; [reflexivity|]. split; [reflexivity|]. split; [reflexivity|]. split; [reflexivity|].
+  intros A0 A1 i j Hi Hj. cbn [f_data]. rewrite !chunks_nth by assumption. rewrite ci_lower_nth, ci_upper_nth.
+  destruct (std_ci_components Phi PhiInv pow15 _ _ _ _ _ _ _ A0 A1 L Eci) as (_ & Hc). apply Hc.
+  unfold prod_shape. simpl. nia.
+Qed.
+End FramesCI.
+
+(* ---------- "computed for the same normalised quantity as the reported value" ---------- *)
+(* the reported quantity as a function of a score object: its group metrics, normalised within that object (this is
+   the line of showbias that produces the reported values, applied to an arbitrary object) *)
+Definition normalised_metric (m : mname) (nz : option normalize) (s : gscores) (ts : list ext) : res (list (list rate)) :=
+  match nz with
+  | None => Ok (calculate_group_metric m s ts)
+  | Some z => apply_normalization z (calculate_metric m s ts) 1 (calculate_group_metric m s ts)
+  end.
+(* the interval of the reported quantity: the CI routine on the replicates of that quantity (one per bootstrap sample,
+   same sampler history) with the reported value as point estimate *)
+Definition ci_of_reported_quantity (argsort : list Q -> list nat) (Phi PhiInv pow15 : Q -> Q)
+           (rows : list row) (gc : gcols) (m : mname) (nz : option normalize) (cfg : sb_config)
+           (hist : nat -> res gscores) (alpha : Q) (pl : Z) (sc ec : label) (thr : thr_arg) : res (list nat * list rate) :=
+  let o := sb_object argsort rows gc pl sc ec in
+  let ts := map Fin (threshold_array thr) in
+  res_bind (sb_bootstrap_metric o (fun s k => match normalised_metric m nz s k with Ok d => concat d | Err => [] end) cfg hist ts)
+  (fun reps =>
+  res_bind (normalised_metric m nz o ts) (fun v =>
+  std_ci Phi PhiInv pow15 [length (groups o); length ts] reps (Some (concat v)) alpha (bootstrap_method cfg))).
+
+Fixpoint all2b {A} (f : A -> A -> bool) (l1 l2 : list A) : bool :=
+  match l1, l2 with
+  | [], [] => true
+  | x :: r, y :: s => f x y && all2b f r s
+  | _, _ => false
+  end.
+Definition table_eqb (a b : list (list rate)) : bool := all2b (all2b reqb) a b.
+
+Section SameQuantity.
+Variable argsort : list Q -> list nat.
+Hypothesis argsort_perm : forall l, Permutation (argsort l) (seq 0 (length l)).
+Hypothesis argsort_sorted : forall l, sorted (take_nat 0%Q l (argsort l)).
+Variables Phi PhiInv pow15 : Q -> Q.
+
+(* without normalisation the intervals ARE those of the reported quantity *)
+Theorem ci_same_quantity_unnormalised rows gc m cfg hist alpha pl sc ec thr bf :
+  rows_wf gc rows ->
+  showbias_std argsort Phi PhiInv pow15 rows gc m None true cfg hist alpha pl sc ec thr = Ok bf ->
+  exists data lo hi,
+    ci_of_reported_quantity argsort Phi PhiInv pow15 rows gc m None cfg hist alpha pl sc ec thr
+      = Ok ([length (f_index (b_values bf)); length (f_columns (b_values bf)); 2%nat], data) /\
+    b_lower bf = Some lo /\ b_upper bf = Some hi /\
+    f_data lo = chunks (length (f_index (b_values bf))) (length (f_columns (b_values bf))) (ci_lower data) /\
+    f_data hi = chunks (length (f_index (b_values bf))) (length (f_columns (b_values bf))) (ci_upper data).
+Proof.
+  intros W H.
+  destruct (showbias_ci_frames argsort argsort_perm argsort_sorted (std_ci Phi PhiInv pow15) rows gc m None cfg hist alpha pl sc ec thr bf W H) as (d & lo0 & hi0 & Hd & Hbf).
+  destruct (showbias_ci_spec argsort argsort_perm argsort_sorted Phi PhiInv pow15 rows gc m None cfg hist alpha pl sc ec thr bf W H)
+    as (s0 & s & data & lo & hi & Es0 & Es & Eci & _ & El & Eh & Dl & Dh & _).
+  subst s. exists data, lo, hi.
+  assert (Ei : length (f_index (b_values bf)) = length (sb_labels argsort rows gc pl sc ec)) by now rewrite Hbf.
+  assert (Ec : length (f_columns (b_values bf)) = length (map Fin (threshold_array thr))) by (rewrite Hbf; cbn; now rewrite map_length).
+  rewrite Ei, Ec. split; [|now repeat split].
+  unfold ci_of_reported_quantity. cbv zeta. unfold normalised_metric.
+  change (fun (s : gscores) (k : list ext) => match Ok (calculate_group_metric m s k) with Ok d0 => concat d0 | Err => [] end)
+    with (fun (s : gscores) (k : list ext) => concat (calculate_group_metric m s k)).
+  rewrite Es0. cbn [res_bind]. rewrite (raw_table_eq argsort argsort_perm argsort_sorted). rewrite <- sb_labels_length. exact Eci.
+Qed.
+End SameQuantity.
+
+(* ---------- the clauses that fail: concrete inputs (identity / deterministic samplers, toy normal cdf Phi0) ---------- *)
+Open Scope string_scope.
+Definition row1 (k : string) (l : Z) (x : Q) : row := mkRow [k] l x.
+Definition identity_sampler (n : nat) (mt : method) : sb_config := mkConfig n mt (SCallable (fun _ s => s)).
+
+(* by_min with a group whose rate is undefined: group a has fnr 1/2 — the smallest defined value — but is reported NaN *)
+Definition ex_undefined_group : list row := [row1 "a" 1 (1#4); row1 "a" 1 (3#4); row1 "b" 0 (1#2)].
+Lemma by_min_undefined_group_witness :
+  raw_table ex_undefined_group Mfnr 1 Pos Pos [Fin (1#2)] [["a"]; ["b"]] = [[Some ((1#1) / (2#1))]; [None]] /\
+  showbias_std iargsort Phi0 PhiInv0 pow0 ex_undefined_group GStr Mfnr (Some NMin) false (identity_sampler 0 MQuantile)
+               (fun _ => Err) 0 1 Pos Pos (TScalar (1#2))
+  = Ok (mkBias (mkFrame [["a"]; ["b"]] [1#2] [[None]; [None]]) None None None).
+Proof. split; vm_compute; reflexivity. Qed.
+
+(* by_min + identity sampler: reported 2 and 1, intervals [1,1] for both groups *)
+Definition ex_ci_min : list row :=
+  [row1 "a" 1 (1#4); row1 "a" 1 (3#4); row1 "b" 1 0; row1 "b" 1 1; row1 "b" 1 (5#4); row1 "b" 1 (3#2)].
+Lemma ci_by_min_witness :
+  exists bf lo hi data,
+    showbias_std iargsort Phi0 PhiInv0 pow0 ex_ci_min GStr Mfnr (Some NMin) true (identity_sampler 2 MQuantile)
+                 (fun _ => Err) (1#8) 1 Pos Pos (TScalar (1#2)) = Ok bf /\
+    b_lower bf = Some lo /\ b_upper bf = Some hi /\
+    table_eqb (f_data (b_values bf)) [[Some 2]; [Some 1]] = true /\
+    table_eqb (f_data lo) [[Some 1]; [Some 1]] = true /\ table_eqb (f_data hi) [[Some 1]; [Some 1]] = true /\
+    ci_of_reported_quantity iargsort Phi0 PhiInv0 pow0 ex_ci_min GStr Mfnr (Some NMin) (identity_sampler 2 MQuantile)
+                            (fun _ => Err) (1#8) 1 Pos Pos (TScalar (1#2)) = Ok ([2; 1; 2]%nat, data) /\
+    table_eqb (chunks 2 1 (ci_lower data)) [[Some 2]; [Some 1]] = true /\
+    table_eqb (chunks 2 1 (ci_upper data)) [[Some 2]; [Some 1]] = true /\
+    table_eqb (f_data lo) (chunks 2 1 (ci_lower data)) = false.
+Proof. eexists. eexists. eexists. eexists. repeat split; vm_compute; reflexivity. Qed.
+
+(* by_overall + a sampler that shifts the scores by j/2: the replicates are divided by the original's overall metric *)
+Definition shift_scores (d : Q) (s : gscores) : gscores :=
+  mkG (mkScores (map (fun x => x + d) (pos (base s))) (map (fun x => x + d) (neg (base s))) 0 0
+                (score_class (base s)) (equal_class (base s))) (pos_groups s) (neg_groups s) (groups s).
+Definition shift_sampler (n : nat) (mt : method) : sb_config :=
+  mkConfig n mt (SCallable (fun j s => shift_scores (inject_Z (Z.of_nat j) * (1#2)) s)).
+Definition ex_ci_overall : list row :=
+  [row1 "a" 1 (-1#4); row1 "a" 1 (1#4); row1 "a" 1 (3#4); row1 "b" 1 0; row1 "b" 1 1].
+Lemma ci_by_overall_witness :
+  exists bf lo hi data,
+    showbias_std iargsort Phi0 PhiInv0 pow0 ex_ci_overall GStr Mfnr (Some NOverall) true (shift_sampler 2 MQuantile)
+                 (fun _ => Err) (1#8) 1 Pos Pos (TScalar (1#2)) = Ok bf /\
+    b_lower bf = Some lo /\ b_upper bf = Some hi /\
+    ci_of_reported_quantity iargsort Phi0 PhiInv0 pow0 ex_ci_overall GStr Mfnr (Some NOverall) (shift_sampler 2 MQuantile)
+                            (fun _ => Err) (1#8) 1 Pos Pos (TScalar (1#2)) = Ok ([2; 1; 2]%nat, data) /\
+    table_eqb (f_data lo) (chunks 2 1 (ci_lower data)) = false /\
+    table_eqb (f_data hi) (chunks 2 1 (ci_upper data)) = false.
+Proof. eexists. eexists. eexists. eexists. repeat split; vm_compute; reflexivity. Qed.
+
+(* by_overall + a sampler that only moves group labels around (overall metric unchanged, so the replicates are right)
+   + bc: the point estimate handed to the CI routine is the un-normalised group metric *)
+Definition roll_labels (j : nat) (l : list G) : list G :=
+  map (fun i => nth ((i + length l - Nat.modulo j (length l)) mod length l) l 0%Z) (seq 0 (length l)).
+Definition regroup_sampler (n : nat) (mt : method) : sb_config :=
+  mkConfig n mt (SCallable (fun j s => mkG (base s) (roll_labels j (pos_groups s)) (roll_labels j (neg_groups s)) (groups s))).
+Definition ex_ci_estimate : list row := [row1 "a" 1 (1#4); row1 "a" 1 (3#4); row1 "b" 1 1; row1 "b" 1 (5#4)].
+Lemma ci_estimate_witness :
+  exists bf lo hi data,
+    showbias_std iargsort Phi0 PhiInv0 pow0 ex_ci_estimate GStr Mfnr (Some NOverall) true (regroup_sampler 3 MBc)
+                 (fun _ => Err) (1#8) 1 Pos Pos (TScalar (1#2)) = Ok bf /\
+    b_lower bf = Some lo /\ b_upper bf = Some hi /\
+    table_eqb (f_data (b_values bf)) [[Some 2]; [Some 0]] = true /\
+    table_eqb (f_data lo) [[Some 0]; [Some 0]] = true /\ table_eqb (f_data hi) [[Some 2]; [Some 2]] = true /\
+    ci_of_reported_quantity iargsort Phi0 PhiInv0 pow0 ex_ci_estimate GStr Mfnr (Some NOverall) (regroup_sampler 3 MBc)
+                            (fun _ => Err) (1#8) 1 Pos Pos (TScalar (1#2)) = Ok ([2; 1; 2]%nat, data) /\
+    reqb (nth 0 data None) (Some 2) = true /\ reqb (nth 1 data None) (Some 2) = true /\
+    table_eqb (f_data lo) (chunks 2 1 (ci_lower data)) = false.
+Proof. eexists. eexists. eexists. eexists. repeat split; vm_compute; reflexivity. Qed.
+Close Scope string_scope.
